@@ -223,6 +223,17 @@ def main():
                   ["y", "z", "w", "x"], C)
             check(f"compute_marginal[feature,{bm}]", lambda c: (lambda: compute_marginal(c["y"], c["z"], X=as_matrix(c["x"]), feature_name=0, weights=c["w"], n_bins=3, bin_method=bm)),
                   ["y", "z", "w", "x"], C)
+        # integer data of a realistic size (counts around 1e5) as int32 ndarray / polars Int32: squares of differences do not
+        # fit into 32 bits
+        if k >= 2:
+            yb = [float(rng.choice([100000, 70000, 5, 250000, 12])) for _ in range(k)]
+            zb = [float(rng.choice([1, 60000, 7, 90000, 300])) for _ in range(k)]
+            CB = dict(y={"f64": np.asarray(yb), "i32": np.asarray(yb, dtype=np.int32), "seriesi32": pl.Series([int(v) for v in yb], dtype=pl.Int32)},
+                      z={"f64": np.asarray(zb), "i32": np.asarray(zb, dtype=np.int32), "seriesi32": pl.Series([int(v) for v in zb], dtype=pl.Int32)})
+            for nmb, sfb in (("SquaredError", SquaredError()), ("HES(2,0.2)", HomogeneousExpectileScore(2, 0.2)), ("HQS(3,0.7)", HomogeneousQuantileScore(3, 0.7))):
+                check(nmb + ".score_per_obs[counts ~1e5]", lambda c: (lambda: sfb.score_per_obs(c["y"], c["z"])), ["y", "z"], CB)
+            check("identification_function[expectile, counts ~1e5]", lambda c: (lambda: identification_function(c["y"], c["z"], functional="expectile", level=0.3)), ["y", "z"], CB)
+            check("decompose[SquaredError, counts ~1e5]", lambda c: (lambda: decompose(c["y"], c["z"], scoring_function=SquaredError())), ["y", "z"], CB)
         # several models: a 2-d ndarray (reference), a list of rows, and a polars frame whose column names are NOT in
         # alphabetical order - the numbers reported for column i are those of column i (the `model` labels themselves differ
         # by construction and are not compared)
